@@ -33,10 +33,15 @@ class AnchorLost(Exception):
 
 def expand_props(fn_path, props):
     """tag closure rules (DESIGN.md 5): C16 (recovery from any reachable receiver state) is carried by every receiver-side
-    clause of the round trips C01 / C02, because its lemma is those clauses applied to an arbitrary state satisfying inv()"""
+    clause of the round trips C01 / C02, because its lemma is those clauses applied to an arbitrary state satisfying inv();
+    C20 likewise (its decapsulator conjunct)"""
     out = list(props)
-    if fn_path.startswith('gse_decap') and ('C01' in out or 'C02' in out) and 'C16' not in out:
-        out.append('C16')
+    if fn_path.startswith('gse_decap') and ('C01' in out or 'C02' in out):
+        # C20's third conjunct ("what the decapsulator accepts with the same field values") is the receiver half of the
+        # round trips applied to the bytes utils::generate wrote (equal to the encapsulator's by lemma_c20_*_unique)
+        for extra in ('C16', 'C20'):
+            if extra not in out:
+                out.append(extra)
     return out
 
 
